@@ -135,9 +135,9 @@ def gkl_kernel(ri, nr, rad, stfunc='kolmogorov', outerscale=None):
 
     for i in range(nr):
         for j in range(i + 1):
-            radius = 0.5 * np.sqrt(rad[i]**2 + rad[j]**2 -
+            radius = 0.5 * np.sqrt(np.maximum(rad[i]**2 + rad[j]**2 -
                                    2 * rad[i] * rad[j] *
-                                   np.cos(np.arange(nth) * 2 * np.pi / nth))
+                                   np.cos(np.arange(nth) * 2 * np.pi / nth), 0.))
             if (stfunc == 'kolmogorov') or (stfunc == 'kolstf'):
                 sf = stf_kolmogorov(radius)
             elif (stfunc == 'vonKarman') or (stfunc == 'karman') or \
